@@ -239,7 +239,7 @@ func H13b_NestedOctetStrings() { h13(true, true) }
 // H13c: malformed variants: wrong dynamic types, decode failures, trailing bytes, wrong counts.
 func H13c_Malformed() {
 	w := mkWorld13(perms[0], subPerms[0], false, false)
-	which := vp.Choose("defect", 7)
+	which := vp.Choose("defect", 10)
 	sgxBlob := w.cert.Extensions[3].Value
 	g := vp.GhostGet(sgxBlob, "asn1").(*asn1Ghost)
 	tcbG := vp.GhostGet(g.seq[1].FullBytes, "asn1").(*asn1Ghost)
@@ -262,6 +262,15 @@ func H13c_Malformed() {
 		g.seq = g.seq[:3]
 	case 6: // the certificate has no SGX extension
 		w.cert.Extensions[3].Id = asn1.ObjectIdentifier{2, 5, 29, 15}
+	case 7: // a component is a one-byte OCTET STRING instead of an INTEGER
+		eg := vp.GhostGet(innerG.seq[4].FullBytes, "asn1").(*asn1Ghost)
+		eg.atv.Value = vp.Bytes("component_as_octets", 1)
+	case 8: // the PCE SVN is a two-byte OCTET STRING instead of an INTEGER
+		eg := vp.GhostGet(innerG.seq[16].FullBytes, "asn1").(*asn1Ghost)
+		eg.atv.Value = vp.Bytes("pcesvn_as_octets", 2)
+	case 9: // a component is a BOOLEAN
+		eg := vp.GhostGet(innerG.seq[0].FullBytes, "asn1").(*asn1Ghost)
+		eg.atv.Value = true
 	}
 	_, err := PckCertificateExtensions(w.cert)
 	vp.Assert("malformed-is-an-error", err != nil)
